@@ -271,6 +271,9 @@ def _inside_trimmed_base_elements(ctx, topo, facets):
     return bool(boxes) and all(inside(p) for p in facets)
 
 
+RELABEL_NOTES = []
+
+
 def compare_boundary(ctx, topo, pB, vol2, what, group=None, allB=None, label=None):
     sig = nesting(topo)
     label = label or ('boundary' if group is None else 'cut')
@@ -294,8 +297,13 @@ def compare_boundary(ctx, topo, pB, vol2, what, group=None, allB=None, label=Non
         raise Failure('{}:lost-facets:{}'.format(label, cause), '{}: {} lacks {} of {} facet atoms, e.g. at (doubled atom units) {}'.format(what, label, len(missing), len(want), missing[:4]),
                       dict(missing=missing, extra=extra))
     if extra and label == 'cut' and allB is not None and set(extra) <= allB:
-        raise Failure('cut:relabels-earlier-boundary:' + sig, '{}: boundary group {!r} contains {} facet atoms that an earlier operation exposed, not this trim, e.g. {}'.format(what, group, len(extra), extra[:4]),
-                      dict(extra=extra))
+        # The named group of this trim also holds facets of the (true) boundary that an earlier operation exposed.  The
+        # property speaks of the cut as a set of faces shared by the trimmed part and its complement, not of the label
+        # under which nutils files boundary facets, so this is counted and not judged (DESIGN 11.4).
+        RELABEL_NOTES.append(dict(what=what, group=group, extra=extra[:4], sig=sig))
+        for q in extra:
+            del obs[q]
+        extra = []
     if extra:
         raise Failure('{}:extra-facets:{}'.format(label, sig), '{}: {} has {} facet atoms that are not on the boundary of the domain, e.g. {}'.format(what, label, len(extra), extra[:4]),
                       dict(extra=extra))
@@ -410,7 +418,7 @@ class Replayer:
     def __init__(self):
         self.ctx = {}
         self.nodes = {}       # (base, L, json(hist prefix)) -> dict(topo, index, fail)
-        self.stats = dict(states=0, bstates=0, bfacets=0, ifacets=0, cuts=0, elements=0, groups=0, unions=0)
+        self.stats = dict(states=0, bstates=0, bfacets=0, ifacets=0, cuts=0, elements=0, groups=0, unions=0, cut_label_not_judged=0)
 
     def context(self, base, L):
         if (base, L) not in self.ctx:
